@@ -88,8 +88,10 @@ func (tracker *TxTracker) Check(ctx context.Context, mempool *MemPool, transmitt
 	}
 
 	tracker.mutex.Lock()
-	defer tracker.mutex.Unlock()
 
+	// The requests are sent after the lock is released. Sending blocks when the peer isn't reading
+	// and block processing needs the lock to remove confirmed txs.
+	var requests []*wire.MsgGetData
 	invRequest := wire.NewMsgGetData()
 	requestCount := 0
 	for txid, _ := range tracker.txids {
@@ -111,13 +113,12 @@ func (tracker *TxTracker) Check(ctx context.Context, mempool *MemPool, transmitt
 			// Request
 			if err := invRequest.AddInvVect(item); err != nil {
 				// Too many requests for one message
-				if !transmitter.TransmitMessage(invRequest) {
-					break // node stopped
-				}
+				requests = append(requests, invRequest)
 				invRequest = wire.NewMsgGetData() // Start new message
 
 				// Try to add it again
 				if err := invRequest.AddInvVect(item); err != nil {
+					tracker.mutex.Unlock()
 					return errors.Wrap(err, "Failed to add tx to get data request")
 				} else {
 					requestCount++
@@ -129,9 +130,7 @@ func (tracker *TxTracker) Check(ctx context.Context, mempool *MemPool, transmitt
 			}
 
 			if requestCount > 100 {
-				if !transmitter.TransmitMessage(invRequest) {
-					break // node stopped
-				}
+				requests = append(requests, invRequest)
 				invRequest = wire.NewMsgGetData() // Start new message
 				requestCount = 0
 			}
@@ -139,9 +138,17 @@ func (tracker *TxTracker) Check(ctx context.Context, mempool *MemPool, transmitt
 		} // else wait and check again later
 	}
 
-	// Send any remaining requests
+	// Add any remaining requests
 	if len(invRequest.InvList) > 0 {
-		transmitter.TransmitMessage(invRequest)
+		requests = append(requests, invRequest)
+	}
+
+	tracker.mutex.Unlock()
+
+	for _, request := range requests {
+		if !transmitter.TransmitMessage(request) {
+			break // node stopped
+		}
 	}
 
 	return nil
